@@ -243,6 +243,28 @@ def run(tier, seed, argv):
     tw = par.run_jobs(twin_jobs())
     rep.twin_expected = 2
     rep.twin_sat = sum(1 for r in tw.values() if any(x["status"] == "violation" for x in r["records"]))
+    # the same predicate through the real constructor on the real torch build (separate process, no stand-in): boundary / interior / just-outside /
+    # non-finite values one at a time and the coupled pairs two at a time
+    import json
+    import os
+    import subprocess
+    from vlib.report import PY, ROOT
+
+    env = dict(os.environ)
+    env["PYTHONPATH"] = f"{ROOT}:/repo"
+    env["OMP_NUM_THREADS"] = "2"
+    try:
+        p = subprocess.run([PY, "-m", "checks.c17_real"], env=env, capture_output=True, text=True, timeout=600)
+        real = json.loads(p.stdout)
+    except Exception as e:
+        real = None
+        rep.harness_errors.append(dict(job="real-build boundary pass", why=repr(e)[:300]))
+    if real is not None:
+        rep.extra["real_build_boundary_cases"] = real["cases"]
+        rep.validated_traces += real["cases"]
+        if real["nbad"]:
+            rep.extra["real_build_boundary_failures"] = real["bad"][:5]
+            rep.violations.append(dict(label=f"real constructor vs documented domain: {real['bad'][0]}", info=dict(signature=dict(kind="real-boundary-pass"), cfg={}), model={}, job="concrete"))
     un = unsupported_configs()
     rep.extra["unsupported_config_cases"] = un
     for name, got in un:
@@ -254,6 +276,11 @@ def run(tier, seed, argv):
 def replay(record):
     """Real torch: construct with the witness values; report whether raise/accept contradicts the documented domain."""
     info = record.get("info") or {}
+    if (info.get("signature") or {}).get("kind") == "real-boundary-pass":
+        from checks import c17_real
+
+        n, bad = c17_real.run_pass()
+        return bool(bad), f"{n} boundary cases through the real constructor: {bad[:2] if bad else 'all agree with the documented domain'}"
     if (info.get("signature") or {}).get("kind") == "unsupported-config":
         un = dict(unsupported_configs())
         w = info["signature"]["which"]
